@@ -822,11 +822,20 @@ pub fn run_check(cfg: &CheckCfg) -> CheckResult {
     }
 
     if !agg.determinism_failures.is_empty() {
-        eprintln!(
-            "harness error: outcome depends on something outside the seed (hash order?): {:?}",
-            agg.determinism_failures
+        if n_violations == 0 {
+            eprintln!(
+                "harness error: outcome depends on something outside the seed (hash order?): {:?}",
+                agg.determinism_failures
+            );
+            return CheckResult { exit: 2 };
+        }
+        // every violation reported below was reproduced from its replay file in a fresh
+        // evaluation; the audit's failure is reported next to them
+        println!(
+            "note: {} audited runs depended on something outside the seed: {:?}",
+            agg.determinism_failures.len(),
+            agg.determinism_failures.iter().take(3).collect::<Vec<_>>()
         );
-        return CheckResult { exit: 2 };
     }
     if agg.scenarios > 20 && agg.rejected * 2 > agg.scenarios * cfg.layouts_per_scenario {
         eprintln!(
